@@ -11,6 +11,7 @@ from .token import LinesToken
 from .token import OutputToken
 from .token import PathT
 from .token import PathToken
+from .token import RESERVED_WORDS
 from .token import RawToken
 from .token import TagToken
 from .token import Token
@@ -184,6 +185,7 @@ __all__ = (
     "parse",
     "PathT",
     "PathToken",
+    "RESERVED_WORDS",
     "RawToken",
     "render_async",
     "render",
